@@ -176,7 +176,12 @@ class Lexer(ITokenizer):
 			if analyzer(source, begin):
 				return token_domain
 
-		assert False, Errors.Never(f'Undetermine token domain. {source[begin]}')
+		# いずれの文字種にも該当しない文字は構文エラーとして報告
+		source_map = Token.SourceMap.make(source, begin, begin + 1)
+		cause_line = source.split('\n')[source_map.begin_line]
+		line_no = source_map.begin_line + 1
+		mark = ' ' * (len(str(line_no)) + 7 + source_map.begin_column) + '^'
+		raise Errors.Syntax(f'pass: 0/0, token: {repr(source[begin])}\n({line_no}) >>> {cause_line}\n{mark}')
 
 	def analyze_white_spece(self, source: str, begin: int) -> bool:
 		"""トークンドメインを解析(空白)
